@@ -459,6 +459,8 @@ pub struct Queries<'a> {
     pub cell_id: &'a dyn Fn(u8, u32) -> u32,
     pub cell_id_tx: &'a dyn Fn(u8, u32) -> u32,
     pub iter_cells: &'a dyn Fn(u8) -> Vec<u32>,
+    /// `i_cell::<I>(d)` collected
+    pub i_cell: &'a dyn Fn(u8, u32) -> Vec<u32>,
 }
 
 /// Classification used by the 3D claims of C03: glued faces closed and mirrored.
@@ -507,7 +509,7 @@ pub fn check_ids_orbits(s: &State, q: &Queries, darts: &[u32], probe_n: &mut u64
             let (p, plin) = policies(o);
             let model: Vec<u32> = s.orbit(p, d);
             // orbit: start dart first, then exactly the model orbit, each once, never null
-            for (name, got) in [("orbit", (q.orbit)(p, d)), ("orbit_transac", (q.orbit_tx)(p, d))] {
+            for (name, got) in [("orbit", (q.orbit)(p, d)), ("orbit_transac", (q.orbit_tx)(p, d)), ("i_cell", (q.i_cell)(o, d))] {
                 let mut sorted = got.clone();
                 sorted.sort_unstable();
                 let dup = sorted.windows(2).any(|w| w[0] == w[1]);
